@@ -65,7 +65,7 @@ def rand_point(rng, nprov, focus):
             return point(rng.choice(["iface", "siface", "ptr", "sptr"]), "wire", 0, True, ["g9"], rng.random() < 0.6)
         return point(rng.choice(["iface", "siface", "ptr", "sptr"]), "wire", 0, False, [], rng.random() < 0.6)
     if focus == "C08":
-        hq, q = rng.choice(QUALS[1:] + QUALS)
+        hq, q = rng.choice(QUALS[1:] + QUALS + [QUALS[0]] * 3)      # qualified points next to unqualified ones of the same type
         if rng.random() < 0.15:
             return point("iface", "wire", -1, False, [], False)
         tag = "func" if rng.random() < 0.15 else "wire"
